@@ -65,7 +65,7 @@ Record iter := mkIter {
   it_nextp : Z
 }.
 
-Definition key_sn (k : key) : Z * Z := (k_sender k, k_nonce k).
+Definition ksn (k : key) : Z * Z := (k_sender k, k_nonce k).
 
 Fixpoint after_key (k : key) (l : list key) : list key :=
   match l with
@@ -155,7 +155,7 @@ Fixpoint collect (fuel : nat) (st : state) (r : sres) : list (Z * Z) * bool :=
 (** *** Mutations while an iterator is open: the elements it holds that leave their skip list die *)
 Definition kill (cursor_too : bool) (s n : Z) (it : iter) : iter :=
   mkIter (it_node it)
-         (it_dead it || (sn_eqb (key_sn (it_node it)) (s, n)))
+         (it_dead it || (sn_eqb (ksn (it_node it)) (s, n)))
          (if cursor_too
           then map (fun c => (fst c, (fst (snd c), snd (snd c) || ((fst c =? s) && (fst (snd c) =? n))))) (it_cur it)
           else it_cur it)
@@ -199,34 +199,43 @@ Definition stepc (c : cfg) (st : state) (o : op) : state :=
   end.
 Definition runc (c : cfg) (ops : list op) : state := fold_left (stepc c) ops init.
 
-(** specification side: what is pending under MaxTx — an Insert is accepted iff the pool holds fewer
-    than MaxTx transactions (MaxTx > 0), always (MaxTx = 0), never (MaxTx < 0) *)
-Definition accepts (c : cfg) (pd : list tx) : bool :=
-  negb ((0 <? max_tx c) && (max_tx c <=? Z.of_nat (List.length pd))) && negb (max_tx c <? 0).
+(** specification side, for ALL histories and configurations: the pending set, computed from the
+    history alone.  An Insert is refused when the pool holds MaxTx transactions (MaxTx > 0), is a no-op
+    when MaxTx < 0; an Insert of a (sender, nonce) that is pending REPLACES it (the latest priority
+    counts) unless the TxReplacement rule refuses (old priority, new priority). *)
+Fixpoint pl_find (s n : Z) (pd : list tx) : option Z :=
+  match pd with
+  | [] => None
+  | t :: r => if sn_eqb (tx_sn t) (s, n) then Some (tx_prio t) else pl_find s n r
+  end.
+
+Definition not_sn (s n : Z) (t : tx) : bool := negb (sn_eqb (tx_sn t) (s, n)).
+
+Definition cap_hit (c : cfg) (pd : list tx) : bool := (0 <? max_tx c) && (max_tx c <=? Z.of_nat (List.length pd)).
 
 Definition pendc_step (c : cfg) (pd : list tx) (o : op) : list tx :=
   match o with
-  | Insert s n p => if accepts c pd then pd ++ [(s, n, p)] else pd
-  | _ => pend_step pd o
+  | Insert s n p =>
+    if cap_hit c pd then pd
+    else if max_tx c <? 0 then pd
+    else match pl_find s n pd with
+         | None => pd ++ [(s, n, p)]
+         | Some op =>
+           match rule c with
+           | Some r => if r op p then filter (not_sn s n) pd ++ [(s, n, p)] else pd
+           | None => filter (not_sn s n) pd ++ [(s, n, p)]
+           end
+         end
+  | Remove s n => filter (not_sn s n) pd
+  | Select => pd
   end.
 Definition pendc (c : cfg) (ops : list op) : list tx := fold_left (pendc_step c) ops [].
 
-Fixpoint uniq_from_c (c : cfg) (pd : list tx) (ops : list op) : Prop :=
-  match ops with
-  | [] => True
-  | o :: r =>
-    match o with Insert s n _ => ~ In (s, n) (map tx_sn pd) | _ => True end /\ uniq_from_c c (pendc_step c pd o) r
-  end.
-Definition unique_sender_nonce_c (c : cfg) (ops : list op) : Prop := uniq_from_c c [] ops.
+(** the application's configuration, no premise: pending with replacement *)
+Definition pending_latest (ops : list op) : list tx := pendc default_cfg ops.
 
-(** ** Histories WITHOUT the premise: the pending set with replacement (the latest priority of a
-    (sender, nonce) inserted again) *)
-Definition pendr_step (pd : list tx) (o : op) : list tx :=
-  match o with
-  | Insert s n p => filter (fun t => negb (sn_eqb (tx_sn t) (s, n))) pd ++ [(s, n, p)]
-  | _ => pend_step pd o
-  end.
-Definition pending_latest (ops : list op) : list tx := fold_left pendr_step ops [].
+(** number of pending transactions with priority [q] *)
+Definition occ (q : Z) (pd : list tx) : Z := Z.of_nat (List.length (filter (fun t => tx_prio t =? q) pd)).
 
 (** ** Admission (baseapp CheckTx + the ante sequence rule), abstractly: the check state holds, per
     account, the sequence number the next admitted transaction must carry *)
